@@ -643,7 +643,7 @@ class _Runner:
     def _killer_during(self) -> None:
         try:
             self.S['flag_seen'] = self._wait_flag(
-                float(self.case.get('flag_wait', 40)),
+                float(self.case.get('flag_wait', 90)),
             )
             self.S['flag_seconds'] = round(time.time() - self.S['t_submit'], 3)
             time.sleep(self.case['delay'])
@@ -747,7 +747,7 @@ class _Runner:
             except Exception as e:
                 S['pre_submit_error'] = repr(e)[:200]
             S['flag_seen'] = self._wait_flag(
-                float(case.get('flag_wait', 40)),
+                float(case.get('flag_wait', 90)),
             )
             time.sleep(case['delay'])
             t = threading.Thread(target=self.do_kill, daemon=True)
@@ -757,7 +757,7 @@ class _Runner:
 
         # exactly one more call, after the kill really happened
         if not self.kill_done.wait(
-            float(case.get('flag_wait', 40)) + case['delay'] + 30,
+            float(case.get('flag_wait', 90)) + case['delay'] + 30,
         ):
             return
         tid = S.get('task_id') or uuid.uuid4()
@@ -783,7 +783,7 @@ class _Runner:
 
     def _controller(self) -> None:
         S, case, bound = self.S, self.case, self.bound
-        pre = float(case.get('flag_wait', 40)) + case['delay'] + 90
+        pre = float(case.get('flag_wait', 90)) + case['delay'] + 90
         if not self.kill_done.wait(pre):
             self.finish({
                 'error': 'kill_not_reached', 'stage': S.get('stage'),
@@ -947,7 +947,7 @@ def _runner_main(case_json: str) -> None:
             'error_text': traceback.format_exc()[-1500:],
         })
     # the controller prints the result and ends the process
-    limit = 3 * R.bound + float(case.get('flag_wait', 40)) + 200
+    limit = 3 * R.bound + float(case.get('flag_wait', 90)) + 200
     time.sleep(limit)
     R.finish({'error': 'controller_stuck'})
 
